@@ -300,6 +300,15 @@ def run_job(job):
         elif kind == 'hyp':
             hyp_explore(mod, ctx, mod.strategy(job['tier']), job['n'], job['seed'],
                         shrink=getattr(mod, 'HYP_SHRINK', False))
+        elif kind == 'corpus':
+            for pth in job['paths']:
+                with open(os.path.join(VERIF, pth), encoding='utf-8') as fil:
+                    case = json.load(fil)['case']
+                if hasattr(mod, 'from_corpus'):
+                    case = mod.from_corpus(case)
+                res = mod.check(case)
+                res.labels.append('corpus')
+                ctx.record(case, res)
         elif kind == 'custom':
             mod.run_job(job, ctx)
         else:
@@ -322,6 +331,13 @@ def default_jobs(mod, pid, tier, seed):
             jobs.append({'kind': 'hyp', 'pid': pid, 'tier': tier, 'shard': sh,
                          'seed': derive_seed(seed, pid, 'hyp', sh),
                          'n': n // nsh + (1 if sh < n % nsh else 0)})
+    corpus = getattr(mod, 'CORPUS', None)
+    cdir = os.path.join(VERIF, 'corpus', corpus) if corpus else None
+    if cdir and os.path.isdir(cdir):
+        files = sorted(os.path.join('corpus', corpus, f) for f in os.listdir(cdir) if f.endswith('.json'))
+        for i in range(4):
+            if files[i::4]:
+                jobs.append({'kind': 'corpus', 'pid': pid, 'tier': tier, 'name': f'corpus-{i}', 'paths': files[i::4]})
     if hasattr(mod, 'jobs'):
         for j in mod.jobs(tier, seed):
             j.update({'kind': 'custom', 'pid': pid, 'tier': tier})
